@@ -542,6 +542,9 @@ def tiny_error_programs():
         # the same on a launched fiber, whose stack is cut to what its function needs
         out.append((f"tinyfiber:{i}", f"fn w(ch) {{ try {{ {what}; }} catch e {{ ch <- e.message; }} }}\nlet ch = chan(1);\nlaunch w(ch);\nprint(<- ch);\n"))
         out.append((f"tinymethod:{i}", f"class T {{ m() {{ try {{ {what}; }} catch e {{ return e.message; }} }} }}\nprint(T().m());\n"))
+        # ... and as the body of an imported module (its own fiber, its own script)
+        out.append((f"tinymodule:{i}", {"/v/main.lay": 'import self.m;\nprint("main", m.r);\n',
+                                        "/v/m.lay": f"export let r = nil;\ntry {{ {what}; }} catch e {{ r = e.message; }}\n"}))
     return out
 
 
@@ -664,7 +667,7 @@ def run(pid, tier, replay=None):
             elif e["verdict"] != "body" and "#~ err" not in out:
                 v.violation(f"[{label}] {e['src']}: the gate's verdict is '{e['verdict']}' but no error was raised", {"call": e, "build": label, "stdout": out[:300]})
         # program families
-        cases = [{"id": f"f{i}", "files": {"/v/main.lay": src}, "main": "/v/main.lay", "stack_mb": 64, "classes": ["exc"], "max_events": 400000}
+        cases = [{"id": f"f{i}", "files": src if isinstance(src, dict) else {"/v/main.lay": src}, "main": "/v/main.lay", "stack_mb": 64, "classes": ["exc"], "max_events": 400000}
                  for i, (fid, src, exp) in enumerate(fams)]
         res = vlib.run_batch(binary, cases, per_case_timeout=60) if cases else {}
         # the frame / handler / nested loop events of every family program against the contract Unwind.tla
@@ -696,8 +699,9 @@ def run(pid, tier, replay=None):
                                              "stderr": r_.get("stderr", "")[-600:], "panic": r_.get("panic")}})
         if not replay:
             tiny = tiny_error_programs()
-            plain = vlib.run_batch(binary, [{"id": f"t{j}", "files": {"/v/main.lay": src}, "main": "/v/main.lay"} for j, (tid, src) in enumerate(tiny)], per_case_timeout=30)
-            dense = vlib.run_batch(binary, [{"id": f"t{j}", "files": {"/v/main.lay": src}, "main": "/v/main.lay", "gc": {"every": 1, "force_full": True}}
+            files_of = lambda src: src if isinstance(src, dict) else {"/v/main.lay": src}
+            plain = vlib.run_batch(binary, [{"id": f"t{j}", "files": files_of(src), "main": "/v/main.lay"} for j, (tid, src) in enumerate(tiny)], per_case_timeout=30)
+            dense = vlib.run_batch(binary, [{"id": f"t{j}", "files": files_of(src), "main": "/v/main.lay", "gc": {"every": 1, "force_full": True}}
                                             for j, (tid, src) in enumerate(tiny)], per_case_timeout=30)
             # every raiser also as an entry of an interactive session (each entry is a script of its own)
             sess = [f"{w};" for w in TINY_RAISERS] + ['print("still here");']
